@@ -162,7 +162,7 @@ inline std::string gen_float_literal(Src& s, size_t maxlen = 40) {
     case 1: nd = 6 + (size_t)s.below(4); break;    // 6..9: around the 7-digit boundary
     case 2: nd = 15 + (size_t)s.below(4); break;   // 15..18
     case 3: nd = 19 + (size_t)s.below(3); break;   // 19..21: accumulator overflow zone
-    default: nd = 1 + (size_t)s.below(30);
+    default: nd = 1 + (size_t)s.below(maxlen > 20 ? maxlen - 8 : 12);  // up to the longest literal that fits
   }
   for (size_t i = 0; i < nd; i++) mant += (char)('0' + s.below(10));
   if (mant[0] == '0' && nd > 1 && s.coin()) mant[0] = (char)('1' + s.below(9));
@@ -203,6 +203,11 @@ inline std::string gen_float_literal(Src& s, size_t maxlen = 40) {
     lit += std::to_string(e < 0 ? -e : e);
   }
   if (lit.size() > maxlen) return "1.5";
+  if (lit.size() + 2 < maxlen && lit.find('.') != std::string::npos && lit.find_first_of("eE") == std::string::npos && s.chance(1, 10)) {
+    // exactly maxlen (or maxlen-1) characters: trailing zeros do not change the value
+    size_t target = maxlen - (size_t)s.below(2);
+    lit.append(target - lit.size(), '0');
+  }
   return lit;
 }
 
